@@ -198,6 +198,8 @@ class _APEv2Data(object):
                 self.header = self.data - 32
             else:
                 self.header = self.data
+            if self.header < 0:
+                raise error("APE tag size exceeds the file size")
         else:
             raise APENoHeaderError("No APE tag found")
 
